@@ -59,6 +59,23 @@ fn ranges(rng: &mut Rng, steer: &[u64], n_random: usize) -> Vec<Rg> {
     v.push((Bound::Excluded(u64::MAX), Bound::Unbounded));
     v.push((Bound::Included(u64::MAX), Bound::Included(u64::MAX)));
     v.push((Bound::Excluded(u64::MAX), Bound::Excluded(0)));
+    v.push((Bound::Included(0), Bound::Included(u64::MAX))); // 0..=MAX
+    v.push((Bound::Included(1), Bound::Included(u64::MAX)));
+    v.push((Bound::Included(0), Bound::Excluded(u64::MAX)));
+    // ranges holding exactly one id, in every spelling
+    for _ in 0..6 {
+        let a = *rng.pick(steer);
+        v.push((Bound::Included(a), Bound::Included(a)));
+        if a < u64::MAX {
+            v.push((Bound::Included(a), Bound::Excluded(a + 1)));
+        }
+        if a > 0 {
+            v.push((Bound::Excluded(a - 1), Bound::Included(a)));
+            if a < u64::MAX {
+                v.push((Bound::Excluded(a - 1), Bound::Excluded(a + 1)));
+            }
+        }
+    }
     for sk in 0..3u64 {
         for ek in 0..3u64 {
             // steered endpoints
@@ -93,6 +110,13 @@ fn steer_points(bytes: &[u8], rng: &mut Rng) -> (Vec<u64>, (u64, u64), bool) {
     if let Ok((h, w)) = R::walk(bytes, &R::WalkLimits::default(), false) {
         leaf = (h.leaf_offset, h.leaf_length);
         has = !w.pointers.is_empty();
+        // ids stored deepest in the tree
+        let deepest = w.pointers.iter().map(|(d, _)| *d).max().unwrap_or(0);
+        for (d, p) in &w.pointers {
+            if *d == deepest {
+                s.push(p.tile_id);
+            }
+        }
         for (_, p) in &w.pointers {
             s.extend([p.tile_id.saturating_sub(1), p.tile_id, p.tile_id.saturating_add(1)]);
         }
@@ -126,6 +150,11 @@ fn archives(ctx: &Ctx, i: u64) -> Arch {
         if i % 4 == 0 {
             o.depth = rng.range(2, 3) as u32;
             o.n_entries = o.n_entries.max(40);
+        }
+        if i % 16 == 8 {
+            // deep trees: more leaf levels than the reference readers use, still opened by the full open
+            o.depth = rng.range(4, 7) as u32;
+            o.n_entries = rng.usize(40, 400);
         }
         let f = gen::gen_foreign(&mut rng, &o);
         let (steer, leaf_section, has_leaves) = steer_points(&f.bytes, &mut rng);
@@ -260,6 +289,9 @@ pub fn run(ctx: &mut Ctx) {
             ctx.count("archives_with_leaves");
         } else {
             ctx.count("archives_root_only");
+        }
+        if a.label.contains("depth=5") || a.label.contains("depth=6") || a.label.contains("depth=7") || a.label.contains("depth=8") {
+            ctx.count("archives_deeper_than_4");
         }
         for (ri, r) in rs.iter().enumerate() {
             let mat = json!({"archive": a.label, "archive_len": a.bytes.len(), "range": show(r), "tiles_in_full_open": full_ids.len()});
